@@ -898,18 +898,30 @@ impl StoryState {
         self.output_stream_dirty();
     }
 
-    pub fn pop_evaluation_stack(&mut self) -> Rc<dyn RTObject> {
-        self.evaluation_stack.pop().unwrap()
+    /// An empty stack is the sign of damaged story content (an operator without
+    /// its operands): a story error, never a panic.
+    pub fn pop_evaluation_stack(&mut self) -> Result<Rc<dyn RTObject>, StoryError> {
+        self.evaluation_stack.pop().ok_or_else(|| {
+            StoryError::InvalidStoryState(
+                "Tried to take a value from the evaluation stack, but it is empty".to_owned(),
+            )
+        })
     }
 
     pub fn pop_evaluation_stack_multiple(
         &mut self,
         number_of_objects: usize,
-    ) -> Vec<Rc<dyn RTObject>> {
-        let start = self.evaluation_stack.len() - number_of_objects;
+    ) -> Result<Vec<Rc<dyn RTObject>>, StoryError> {
+        let Some(start) = self.evaluation_stack.len().checked_sub(number_of_objects) else {
+            return Err(StoryError::InvalidStoryState(format!(
+                "Tried to take {} values from the evaluation stack, but it holds only {}",
+                number_of_objects,
+                self.evaluation_stack.len()
+            )));
+        };
         let obj: Vec<Rc<dyn RTObject>> = self.evaluation_stack.drain(start..).collect();
 
-        obj
+        Ok(obj)
     }
 
     pub fn set_diverted_pointer(&mut self, p: Pointer) {
@@ -1091,7 +1103,7 @@ impl StoryState {
         // for that)
         let mut returned_obj = None;
         while self.evaluation_stack.len() > original_evaluation_stack_height {
-            let popped_obj = self.pop_evaluation_stack();
+            let popped_obj = self.pop_evaluation_stack()?;
             if returned_obj.is_none() {
                 returned_obj = Some(popped_obj);
             }
